@@ -11,7 +11,7 @@ from stix2.base import _STIXBase
 from stix2.datastore import DataSink, DataSource, DataStoreMixin
 from stix2.datastore.filters import FilterSet, apply_common_filters
 from stix2.parsing import parse
-from stix2.utils import parse_into_datetime
+from stix2.utils import version_instant
 
 
 def _add(store, stix_data, allow_custom=True, version=None):
@@ -71,6 +71,10 @@ def _add(store, stix_data, allow_custom=True, version=None):
             store._data[stix_obj["id"]] = stix_obj
 
 
+def _modified_instant(obj):
+    return version_instant(obj["modified"])
+
+
 class _ObjectFamily(object):
     """
     An internal implementation detail of memory sources/sinks/stores.
@@ -85,11 +89,11 @@ class _ObjectFamily(object):
     def add(self, obj):
         # Objects of unregistered types are dicts whose "modified" is text:
         # key and compare by instant, not by spelling.
-        modified = parse_into_datetime(obj["modified"])
+        modified = _modified_instant(obj)
         self.all_versions[modified] = obj
         if (
             self.latest_version is None or
-            modified > parse_into_datetime(self.latest_version["modified"])
+            modified > _modified_instant(self.latest_version)
         ):
             self.latest_version = obj
 
@@ -291,7 +295,7 @@ class MemorySource(DataSource):
         if len(versions) == 1:
             return versions[0]
 
-        return max(versions, key=lambda obj: parse_into_datetime(obj["modified"]))
+        return max(versions, key=_modified_instant)
 
     def all_versions(self, stix_id, _composite_filters=None):
         """Retrieve STIX objects from in-memory dict via STIX ID, all versions
